@@ -4,6 +4,7 @@ mod choice;
 mod common;
 mod json;
 mod peers;
+mod proc;
 mod rfc;
 mod run;
 mod scen;
@@ -124,8 +125,112 @@ fn main() {
             let _ = writeln!(out, "rules={rules:?}");
             common::cleanup_process_sandbox();
         }
+        "worker" => {
+            let prop = run::static_prop(args.get(2).map(|s| s.as_str()).unwrap_or("")).expect("property");
+            let num = |n: &str, d: u64| arg_val(&args, n).and_then(|v| v.parse().ok()).unwrap_or(d);
+            let a = proc::WorkerArgs {
+                prop,
+                tier: proc::parse_tier(&arg_val(&args, "--tier").unwrap_or_default()),
+                seed: num("--seed", 1),
+                start: num("--start", 0),
+                stride: num("--stride", 1),
+                end: num("--end", 100),
+                deadline_s: arg_val(&args, "--deadline-s").and_then(|v| v.parse().ok()).unwrap_or(3600.0),
+                replay_dir: arg_val(&args, "--replay-dir").unwrap_or_else(|| "/verif/replays".into()).into(),
+                want_trace_sample: args.iter().any(|a| a == "--trace-sample"),
+            };
+            let mut out = silence_repo_output();
+            install_panic_hook();
+            proc::worker(a, &mut out);
+        }
+        "fp" => {
+            let prop = run::static_prop(args.get(2).map(|s| s.as_str()).unwrap_or("")).expect("property");
+            let num = |n: &str, d: u64| arg_val(&args, n).and_then(|v| v.parse().ok()).unwrap_or(d);
+            let mut out = silence_repo_output();
+            install_panic_hook();
+            proc::fingerprints(prop, proc::parse_tier(&arg_val(&args, "--tier").unwrap_or_default()), num("--seed", 1), num("--start", 0), num("--end", 100), &mut out);
+        }
+        "check" => {
+            let prop = run::static_prop(args.get(2).map(|s| s.as_str()).unwrap_or("")).expect("property");
+            let tier = proc::parse_tier(&arg_val(&args, "--tier").unwrap_or_default());
+            let num = |n: &str, d: u64| arg_val(&args, n).and_then(|v| v.parse().ok()).unwrap_or(d);
+            let me = std::env::current_exe().expect("exe");
+            let a = proc::CheckArgs {
+                prop,
+                tier,
+                seed: num("--seed", 1),
+                jobs: num("--jobs", 16),
+                runs: num("--runs", 10_000),
+                budget_s: arg_val(&args, "--budget-s").and_then(|v| v.parse().ok()).unwrap_or(3600.0),
+                ship: arg_val(&args, "--ship").map(Into::into).unwrap_or_else(|| me.clone()),
+                chk: arg_val(&args, "--chk").map(Into::into).unwrap_or_else(|| me.clone()),
+                replay_dir: arg_val(&args, "--replay-dir").unwrap_or_else(|| "/verif/replays".into()).into(),
+                evidence: arg_val(&args, "--evidence").unwrap_or_else(|| format!("/verif/evidence/{prop}.json")).into(),
+                known: arg_val(&args, "--known").unwrap_or_else(|| "/verif/known_findings.json".into()).into(),
+                level: arg_val(&args, "--level").unwrap_or_else(|| "exploration".into()),
+            };
+            std::process::exit(proc::check(a));
+        }
+        "replay" => {
+            let path = std::path::PathBuf::from(args.get(2).expect("replay file"));
+            let ship = std::env::var("TFTPD_SIM_SHIP").ok().map(Into::into);
+            let chk = std::env::var("TFTPD_SIM_CHK").ok().map(Into::into);
+            let mut out = silence_repo_output();
+            install_panic_hook();
+            // proc::replay prints with println!, which now goes to the sink: restore stdout for it
+            use std::os::fd::AsRawFd;
+            unsafe {
+                dup2(out.as_raw_fd(), 1);
+            }
+            let _ = out.flush();
+            let code = proc::replay(&path, ship, chk);
+            common::cleanup_process_sandbox();
+            std::process::exit(code);
+        }
+        "selftest" => {
+            // determinism: the same seeds in different processes and different splits
+            let me = std::env::current_exe().expect("exe");
+            let props: Vec<&str> = arg_val(&args, "--props").map(|s| s.split(',').filter_map(run::static_prop).collect()).unwrap_or_else(|| run::implemented());
+            let n: u64 = arg_val(&args, "--runs").and_then(|v| v.parse().ok()).unwrap_or(200);
+            let fp = |prop: &str, start: u64, end: u64| -> Vec<String> {
+                let o = std::process::Command::new(&me).args(["fp", prop, "--start", &start.to_string(), "--end", &end.to_string()]).output().expect("fp child");
+                String::from_utf8_lossy(&o.stdout).lines().filter(|l| l.starts_with("F ")).map(|l| l.to_string()).collect()
+            };
+            let mut bad = 0;
+            let mut total = 0;
+            for prop in props {
+                let whole = fp(prop, 0, n);
+                let mut parts: Vec<std::thread::JoinHandle<Vec<String>>> = vec![];
+                for k in 0..8u64 {
+                    let me2 = me.clone();
+                    let prop2 = prop.to_string();
+                    let (s, e) = (k * n / 8, (k + 1) * n / 8);
+                    parts.push(std::thread::spawn(move || {
+                        let o = std::process::Command::new(&me2).args(["fp", &prop2, "--start", &s.to_string(), "--end", &e.to_string()]).output().expect("fp child");
+                        String::from_utf8_lossy(&o.stdout).lines().filter(|l| l.starts_with("F ")).map(|l| l.to_string()).collect()
+                    }));
+                }
+                let mut split: Vec<String> = vec![];
+                for p in parts {
+                    split.extend(p.join().unwrap());
+                }
+                total += whole.len();
+                if whole.is_empty() || whole != split {
+                    bad += 1;
+                    let diff = whole.iter().zip(split.iter()).filter(|(a, b)| a != b).count();
+                    println!("DETERMINISM-FAIL {prop}: {} vs {} fingerprints, {diff} differ", whole.len(), split.len());
+                    for (a, b) in whole.iter().zip(split.iter()).filter(|(a, b)| a != b).take(3) {
+                        println!("   {a}  !=  {b}");
+                    }
+                } else {
+                    println!("determinism ok {prop}: {} runs, 1 process vs 8 concurrent processes, identical fingerprints (choices, trace text, clock, verdict)", whole.len());
+                }
+            }
+            println!("selftest determinism ({}): {total} runs compared, {bad} properties diverged", proc::profile_name());
+            std::process::exit(if bad == 0 { 0 } else { 2 });
+        }
         _ => {
-            eprintln!("usage: tftpd-sim run <PROP> [--runs N] [--seed S] [--start K] [--trace] [--keep-going]");
+            eprintln!("usage: tftpd-sim run|worker|check|replay|fp|selftest ...");
             std::process::exit(2);
         }
     }
